@@ -33,7 +33,7 @@ harnesses! {
     h_sc1_s0 => sc_step(0, 1, 0), h_sc1_s1 => sc_step(1, 1, 0), h_sc1_s2 => sc_step(2, 1, 0), h_sc1_s3 => sc_step(3, 1, LIGHT),
     h_sc1_s4 => sc_step(4, 1, 0), h_sc1_s5 => sc_step(5, 1, 0), h_sc1_s6 => sc_step(6, 1, 0), h_sc1_s7 => sc_step(7, 1, LIGHT),
     h_sc1_s8 => sc_step(8, 1, LIGHT), h_sc1_s9 => sc_step(9, 1, 0), h_sc1_s10 => sc_step(10, 1, LIGHT), h_sc1_s11 => sc_step(11, 1, LIGHT),
-    h_sc1_s12 => sc_step(12, 1, LIGHT), h_sc1_s13 => sc_step(13, 1, LIGHT),
+    h_sc1_s12 => sc_step(12, 1, LIGHT), h_sc1_s13 => sc_step(13, 1, LIGHT), h_sc1_s14 => sc_step(14, 1, LIGHT),
     // event-less selection and late binding on the small shapes
     h_sc1e_s1 => sc_step(1, 1, EVL | LATE), h_sc1e_s4 => sc_step(4, 1, EVL | LATE), h_sc1e_s6 => sc_step(6, 1, EVL | LATE),
     // two transitions, the second one restricted to the region of its source (conflict / pre-emption inside parallel states)
